@@ -111,6 +111,19 @@ func OverlayFromDir(harnessDir, repoDir string) (map[string][]byte, []string, er
 		if !seen[d] {
 			seen[d] = true
 			pkgs = append(pkgs, d)
+			// synthesise the body-less runtime declarations for this package
+			pkgName := ""
+			for _, line := range strings.Split(string(b), "\n") {
+				if strings.HasPrefix(line, "package ") {
+					pkgName = strings.TrimSpace(strings.TrimPrefix(line, "package "))
+					break
+				}
+			}
+			tmpl, terr := os.ReadFile(filepath.Join(harnessDir, "rt.go.tmpl"))
+			if terr != nil {
+				return terr
+			}
+			ov[filepath.Join(repoDir, filepath.Dir(rel), "zz_verif_rt.go")] = []byte(strings.Replace(string(tmpl), "package PKG", "package "+pkgName, 1))
 		}
 		return nil
 	})
